@@ -222,16 +222,18 @@ def _atf_polarity(t):
     return None
 
 
-def r13_3(prog, tab):
+def r13_3(prog, tab, rid="R13.3", only=None, floor=80):
     """-findirect-choice / -fwide-types / recursion breaking decide, per member, whether the structure holds the value
     or a pointer to it (ATF_POINTER).  Every computation of a member's storage address (`base + elm->memb_offset`)
     in the runtime must sit on an edge of a test of ATF_POINTER, and be read as pointer-to-pointer exactly on the
     pointer edge.  An address used before the test hands `the slot` to code that expects `the value` in one of the two
     representations: the builds then disagree on the bytes."""
     from ..model import tree_text
-    r = Rule("R13.3", "a member's storage address is interpreted only after ATF_POINTER was tested, as pointer-to-pointer exactly on the pointer edge", floor=80)
+    r = Rule(rid, "a member's storage address is interpreted only after ATF_POINTER was tested, as pointer-to-pointer exactly on the pointer edge", floor=floor)
     exc = {(x["function"], x["key"]): x["reason"] for x in tab.get("r13_3_exceptions", [])}
     for f in sorted(prog.funcs.values(), key=lambda f: f.key):
+        if only is not None and not only(f):
+            continue
         tests = []
         for b in f.blocks.values():
             if b.term and "cond" in b.term and len(b.succ) >= 2 and b.term["kind"] != "SwitchStmt":
